@@ -81,6 +81,8 @@ class World:
         self.digest = hashlib.sha256()
         self.nontrivial = False
         self.oracle = None
+        # open character iterators, keyed by the identity of their source object (kept alive here)
+        self.iters = {}
 
     def count(self, key, n=1):
         self.stats[key] = self.stats.get(key, 0) + n
@@ -93,7 +95,14 @@ class World:
     def res_obs(self, desc):
         if 'slot' in desc:
             return self.obs[desc['slot'] % len(self.vals)]
-        return observe(desc['text'])
+        t = desc['text']
+        if '\x1b' in t:
+            # a plain str operand is taken as AnsiString(operand) by +, += and join (documented: "value as str
+            # or AnsiString"); what that parse yields is C02's business, the relations use it as given
+            o = observe(AnsiString(t))
+            self.count('probe:plain_operand_with_escape')
+            return Obs(T, o.text, o.cells, o.render)
+        return observe(t)
 
 
 def operand_descs(op):
@@ -171,6 +180,23 @@ def execute(world: World, op, step_no, oracle=None, budget=clock.DEFAULT_BUDGET,
     def call():
         if k == 'bad':
             return bad_runner(op, recv, world)
+        if k == 'itnext':
+            # a reader that stays open across later steps: the source may be modified in place between two
+            # next() calls (the interleaving of a consumer with in-place operations on the same object)
+            ent = world.iters.get(id(recv))
+            if ent is None or ent[0] is not recv:
+                if len(world.iters) >= 4:
+                    world.iters.clear()
+                ent = world.iters[id(recv)] = (recv, iter(recv))
+                world.count('iter_opened')
+            try:
+                item = next(ent[1])
+            except StopIteration:
+                del world.iters[id(recv)]
+                world.count('iter_exhausted')
+                return None
+            world.count('iter_next')
+            return item
         return ops.perform(op, recv, ctx.ip, world.res)
 
     try:
